@@ -5,6 +5,7 @@ import logging
 
 from cardutil import __version__
 from cardutil.cli import get_config, print_banner, print_exception_details
+from cardutil.cli.mci_ipm_encode import get_config as get_encode_config
 from cardutil.mciipm import IpmReader, IpmWriter, MciIpmDataError
 
 
@@ -196,5 +197,6 @@ def convert(config, **kwargs):
     with open(in_filename, 'rb') as in_file:
         with open(out_filename, 'wb') as out_file:
             with IpmWriter(out_file, encoding=out_encoding, blocked=in_blocked) as writer:
-                reader = IpmReader(in_file, encoding=in_encoding, blocked=out_blocked)
+                # read without PDS expansion (as mci_ipm_encode does) so that records are written back unchanged
+                reader = IpmReader(in_file, encoding=in_encoding, blocked=out_blocked, iso_config=get_encode_config())
                 writer.write_many(reader)
